@@ -176,7 +176,9 @@ class ExecFull(ExecPlaces):
     # ---- nested defs
     def s_FunctionDef(self, s, fr):
         lazy = any(_dec_name(d) == "lazylist" for d in s.decorator_list)
-        is_gen = any(isinstance(x, (ast.Yield, ast.YieldFrom)) for x in ast.walk(s))
+        from .verify import _is_generator
+
+        is_gen = _is_generator(s)
         clo = Closure(s, fr.env, fr.globals, name=s.name, is_generator=is_gen, lazylist=lazy, owner=fr.fn_name)
         clo.owner_contract = fr.contract
         fr.env[s.name] = clo
@@ -264,6 +266,8 @@ class ExecFull(ExecPlaces):
         self.spec_mode += 1
         try:
             v = self.eval(node, fr)
+        except VCError as e:
+            raise type(e)(f"{e} [in clause `{text[:120]}`]") from None
         finally:
             self.spec_mode -= 1
         if hint:
@@ -390,8 +394,7 @@ class ExecFull(ExecPlaces):
         elif isinstance(it, Ref) and isinstance(self.p.cell(it), IterCell):
             iter_cell = self.p.cell(it)
         elif isinstance(it, Ref) and isinstance(self.p.cell(it), ObjCell):
-            gen = self.call_function(self.w.method(self.p.cell(it).cls, "__iter__"), [it], {}, s, fr, interleaved=True)
-            return self.for_interleaved(s, fr, gen, k, spec)
+            return self.for_interleaved(s, fr, it, k, spec)
         else:
             seq = self.to_sv(it) if not isinstance(it, GenResult) else it.yielded
             count = seq_len(seq)
@@ -451,8 +454,57 @@ class ExecFull(ExecPlaces):
         else:
             self.p.assume(c.pos >= n)
 
-    def for_interleaved(self, s, fr, gen, k, spec):
-        raise OutOfSubset("interleaved iteration over an object generator")
+    def for_interleaved(self, s, fr, obj, k, spec):
+        """for x in <object>: iteration through the object's __iter__ generator *by contract*:
+        item j is yields[j]; at each yield the callee's `at_yield` clauses hold (its side effects so far),
+        at exhaustion its `ensures`.  The consumer must not mutate the object between resumptions."""
+        cell = self.p.cell(obj)
+        fn = self.w.method(cell.cls, "__iter__")
+        c = self.w.contracts.get(fn.key) if fn is not None else None
+        if c is None or not c.yields_expr:
+            raise NeedsContract(f"{cell.cls}.__iter__ needs a generator contract (yields_expr, at_yield)")
+        cenv = {"self": obj}
+        cfr = Frame(cenv, fn.globals, "contract:" + fn.name)
+        for nm, text in c.lets.items():
+            cenv[nm] = self.eval_value_clause(text, cfr)
+        for i, r in enumerate(c.requires):
+            self.oblige("pre", self.eval_clause(r, cfr), s, tag=f"[{fn.name}#{i}]")
+        full = self.eval_value_clause(c.yields_expr, cfr)
+        full = self.to_sv(full)
+        self.loop_entry(spec, fr)
+        fr.env["_k"] = 0
+        self.check_invariant(spec, fr, "inv-init", s, k)
+        choice = self.p.decide(2)
+        self.havoc_for_loop(s.body, fr, spec)
+        self.apply_modifies(c, c.modifies, cfr)
+        kv = fresh("_k", INT)
+        fr.env["_k"] = kv
+        n = seq_len(full)
+        self.p.assume(z3.And(kv.z >= 0, kv.z <= n))
+        self.assume_invariant(spec, fr)
+        if choice == 0:
+            self.p.assume(kv.z < n)
+            cenv["_yielded"] = seq_slice(full, None, kv.z + 1)
+            for cl in c.at_yield:
+                self.p.assume(self.eval_clause(cl, cfr))
+            self.assign(s.target, seq_nth(full, kv.z), fr, s)
+            self.loop_pre_iteration(spec, fr)
+            try:
+                self.exec_block(s.body, fr)
+            except _Continue:
+                pass
+            except _Break:
+                return
+            fr.env["_k"] = SV(kv.z + 1, INT)
+            self.loop_back_edge(spec, fr, s, k)
+            raise PathEnd("loop back-edge")
+        else:
+            self.p.assume(kv.z == n)
+            cenv["result"] = full
+            for e in c.ensures:
+                self.p.assume(self.eval_clause(e, cfr))
+            for h in spec.get("hints_exit", []):
+                self.eval_clause(h, fr, hint=True)
 
     # ------------------------------------------------------------------ generators
     def do_yield(self, node, fr):
